@@ -93,7 +93,7 @@ def gen_cases(tier, seed):
     _PRE["summaries"][:] = []
     n = 60 if tier == "thorough" else 36
     entries = _pool(seed, n)
-    workdir = os.path.join(env.VERIF, "out", "work", "C12-tables-%d" % os.getpid())
+    workdir = os.path.join(env.OUT, "out", "work", "C12-tables-%d" % os.getpid())
     hss = ["0", "1", "2", "random"] if tier == "thorough" else ["0", "1", "random"]
     tables, digests, errors = _tables(entries, hss, workdir, per_proc=1 if tier == "thorough" else 4)
     try:
